@@ -35,7 +35,9 @@ import (
 	"github.com/pingcap/failpoint"
 	"github.com/pingcap/kvproto/pkg/errorpb"
 	"github.com/pingcap/kvproto/pkg/kvrpcpb"
+	"github.com/pkg/errors"
 	tikverr "github.com/tikv/client-go/v2/error"
+	"github.com/tikv/client-go/v2/oracle"
 	"github.com/tikv/client-go/v2/tikv"
 	"github.com/tikv/client-go/v2/tikvrpc"
 	"github.com/tikv/client-go/v2/verifh/vrep"
@@ -111,6 +113,11 @@ type spec struct {
 	// LoseUntilError: the loss ends as soon as Flush/FlushWait has reported an error to the driver (the
 	// store is reachable again when the application goes on to Commit or Rollback)
 	LoseUntilError bool `json:"lose_until_error_reported"`
+	// CommitFault: a failure in the commit phase.  primary-rolled-back = another client's resolver finds the
+	// primary lock expired and rolls it back right before the Commit request reaches the store; failpoint =
+	// pipelinedCommitFail (the commit fails after the commit ts has been fetched); not-leader / server-busy /
+	// drop-req hit the first Commit request
+	CommitFault string `json:"commit_fault,omitempty"`
 	// BGFaults: what happens to the n-th BufferBatchGet RPC of the transaction (reads of flushed keys); a split
 	// is placed between two of the requested keys, so that the batch has to be re-grouped by region
 	BGFaults []fault `json:"buffer_batch_get_rpc_faults"`
@@ -286,7 +293,16 @@ func gen(rng *rand.Rand, id, prefixNo int) *spec {
 		s.ResolveErr = rng.Intn(3)
 		s.ResolveKind = []int{fNotLeader, fSplit, fSplit}[rng.Intn(3)]
 	}
+	genCommitFault(rng, s)
 	return s
+}
+
+// genCommitFault gives a quarter of the committing transactions a failure in the commit phase.
+func genCommitFault(rng *rand.Rand, s *spec) {
+	if s.End != "commit" || s.LoseFrom >= 0 || s.ConflictKey != "" || rng.Intn(4) != 0 {
+		return
+	}
+	s.CommitFault = []string{"primary-rolled-back", "primary-rolled-back", "primary-rolled-back", "failpoint", "failpoint", "not-leader", "server-busy", "drop-req"}[rng.Intn(8)]
 }
 
 // genBGFaults draws the faults of the first BufferBatchGet RPCs of a transaction.
@@ -418,6 +434,7 @@ func genReadFlushed(rng *rand.Rand, s *spec, prefix string) *spec {
 		s.ResolveErr = rng.Intn(3)
 		s.ResolveKind = []int{fNotLeader, fSplit}[rng.Intn(2)]
 	}
+	genCommitFault(rng, s)
 	return s
 }
 
@@ -431,6 +448,8 @@ type plan struct {
 	nFlush   int
 	nResolve int
 	nBG      int
+	nCommit  int
+	commitRequestLost bool
 	held     []chan struct{}
 	release  bool // release mode: nothing is held
 	loseOver bool // the loss of Flush RPCs has ended
@@ -454,6 +473,39 @@ func (p *plan) decide(c *uni.Call) uni.Action {
 			k := []byte(p.s.Keys[len(p.s.Keys)/2])
 			p.counts["resolve:split-at-rpc"]++
 			return uni.Action{Before: func() { p.u.SplitAt(k) }}
+		}
+		return uni.Action{}
+	}
+	if c.Cmd == tikvrpc.CmdCommit {
+		n := p.nCommit
+		p.nCommit++
+		if n != 0 {
+			return uni.Action{}
+		}
+		switch p.s.CommitFault {
+		case "primary-rolled-back":
+			var primary []byte
+			if r, ok := c.Req.(*kvrpcpb.CommitRequest); ok && len(r.Keys) > 0 {
+				primary = r.Keys[0]
+			}
+			ts := p.startTS
+			return uni.Action{Before: func() {
+				if err := rollbackExpiredPrimary(p.u, primary, ts); err == nil {
+					p.mu.Lock()
+					p.counts["commit:primary-rolled-back-by-resolver"]++
+					p.mu.Unlock()
+				}
+			}}
+		case "not-leader":
+			p.counts["commit:not-leader"]++
+			return uni.Action{Kind: uni.RegionErr, RegErr: &errorpb.Error{Message: "injected", NotLeader: &errorpb.NotLeader{RegionId: c.RegionID}}}
+		case "server-busy":
+			p.counts["commit:server-busy"]++
+			return uni.Action{Kind: uni.RegionErr, RegErr: &errorpb.Error{Message: "injected", ServerIsBusy: &errorpb.ServerIsBusy{Reason: "verif"}}}
+		case "drop-req":
+			p.counts["commit:drop-req"]++
+			p.commitRequestLost = true
+			return uni.Action{Kind: uni.DropReq}
 		}
 		return uni.Action{}
 	}
@@ -557,6 +609,44 @@ func (p *plan) decide(c *uni.Call) uni.Action {
 	return uni.Action{}
 }
 
+// rollbackExpiredPrimary does what the resolver of another client does when it meets the primary lock after its
+// ttl: CheckTxnStatus with a current ts far behind lock ts + ttl, which rolls the primary back.  It goes through
+// the un-recorded truth store, so the RPC log of the owner stays the owner's.
+func rollbackExpiredPrimary(u *uni.Universe, primary []byte, startTS uint64) error {
+	if len(primary) == 0 {
+		return errors.New("no primary")
+	}
+	st := u.TruthStore()
+	cur := oracle.ComposeTS(oracle.ExtractPhysical(startTS)+24*3600*1000, 0)
+	for attempt := 0; attempt < 20; attempt++ {
+		bo := tikv.NewBackofferWithVars(context.Background(), 20000, nil)
+		loc, err := st.GetRegionCache().LocateKey(bo, primary)
+		if err != nil {
+			return err
+		}
+		req := tikvrpc.NewRequest(tikvrpc.CmdCheckTxnStatus, &kvrpcpb.CheckTxnStatusRequest{PrimaryKey: primary, LockTs: startTS, CallerStartTs: cur, CurrentTs: cur, RollbackIfNotExist: true})
+		resp, err := st.SendReq(bo, req, loc.Region, 10*time.Second)
+		if err != nil {
+			return err
+		}
+		if re, _ := resp.GetRegionError(); re != nil {
+			continue
+		}
+		r, ok := resp.Resp.(*kvrpcpb.CheckTxnStatusResponse)
+		if !ok || r == nil {
+			return errors.New("unexpected response")
+		}
+		if r.Error != nil {
+			return errors.Errorf("check txn status: %v", r.Error)
+		}
+		if r.Action != kvrpcpb.Action_TTLExpireRollback && r.Action != kvrpcpb.Action_LockNotExistRollback {
+			return errors.Errorf("primary not rolled back: action %v commit %d", r.Action, r.CommitVersion)
+		}
+		return nil
+	}
+	return errors.New("region errors did not settle")
+}
+
 // router is the decider of the client: it hands every call to the plan of the transaction it belongs to, so
 // that the faults on ResolveLock RPCs still apply when the resolution runs in the background of later cases.
 type router struct {
@@ -636,6 +726,9 @@ type caseRec struct {
 	reads     map[string]int
 	heldReleasedByWait, heldReleasedByStep int
 	conflictCommitted bool
+	lockLeftReported  bool
+	undetermined      bool
+	clientID          int
 	splitsByDriver    int
 	shape             []string
 	splitsDone        []string
@@ -689,6 +782,7 @@ func runCase(u *uni.Universe, rt *router, c, c2 *uni.ClientStore, s *spec) (rec 
 		return
 	}
 	rec.startTS = txn.StartTS()
+	rec.clientID = c.ID
 	p.mu.Lock()
 	p.startTS = rec.startTS
 	p.mu.Unlock()
@@ -876,8 +970,27 @@ loop:
 		var cerr error
 		// Commit flushes what is left in the mutable buffer as one more generation
 		rec.gens = append(rec.gens, mutable)
-		if !blocking(func() { cerr = txn.Commit(ctx) }) {
+		if s.CommitFault == "failpoint" {
+			_ = failpoint.Enable("tikvclient/pipelinedCommitFail", "return")
+			p.mu.Lock()
+			p.counts["commit:failpoint-after-commit-ts"]++
+			p.mu.Unlock()
+		}
+		ok := blocking(func() { cerr = txn.Commit(ctx) })
+		if s.CommitFault == "failpoint" {
+			_ = failpoint.Disable("tikvclient/pipelinedCommitFail")
+		}
+		if !ok {
 			return
+		}
+		if cerr != nil && (errors.Is(cerr, tikverr.ErrResultUndetermined) || errors.Cause(cerr) == tikverr.ErrResultUndetermined) {
+			rec.undetermined = true
+			p.mu.Lock()
+			lost := p.commitRequestLost
+			p.mu.Unlock()
+			if !lost {
+				addViol(len(s.Steps), "error:undetermined-without-lost-commit-request", "Commit returned %v although no request of the commit point was lost", cerr)
+			}
 		}
 		if cerr == nil {
 			rec.committed = true
@@ -938,6 +1051,7 @@ func fmtGen(m map[string]mval) string {
 
 type wireStats struct {
 	flushRPCs, applied, generations, retriedGenerations int
+	ownerResolves, ownerResolvesRollback                int
 }
 
 // checkWire evaluates the wire oracle over the Flush RPCs of the transaction.
@@ -953,6 +1067,11 @@ func checkWire(rec *caseRec, calls []uni.Call) (vs []viol, st wireStats) {
 					ms = append(ms, fmt.Sprintf("%s %q=%s", m.Op, m.Key, short(string(m.Value))))
 				}
 				lines = append(lines, fmt.Sprintf("#%d..%d gen=%d region=%d ver=%d %s err=%q regErr=%v delivered=%v [%s]", c.Seq, c.RetSeq, r.Generation, c.RegionID, c.RegionVer, c.Action, c.Err, c.RegionErr != nil, c.Delivered, strings.Join(ms, ", ")))
+			}
+		}
+		for _, c := range calls {
+			if c.StartTS == rec.startTS && (c.Cmd == tikvrpc.CmdCommit || c.Cmd == tikvrpc.CmdResolveLock) && len(lines) < 90 {
+				lines = append(lines, fmt.Sprintf("#%d..%d c%d %s region=%d %s err=%q regErr=%v :: %.160v => %.120v", c.Seq, c.RetSeq, c.Client, c.Cmd, c.RegionID, c.Action, c.Err, c.RegionErr != nil, c.Req, c.Resp))
 			}
 		}
 		var gens []string
@@ -1063,12 +1182,50 @@ func checkWire(rec *caseRec, calls []uni.Call) (vs []viol, st wireStats) {
 			add("wire:generation-never-sent", "the %d-th non-empty flush %s was reported successful but no Flush request of it was sent", i+1, fmtGen(model[i]))
 		}
 	}
+	// The owner resolves its flushed locks to the outcome decided on the primary: a ResolveLock request of the
+	// owner for its own start ts carries commit_version 0 unless a Commit request of the primary had succeeded
+	// before it was sent, and then exactly that commit ts.
+	var primaryCommitTS uint64
+	var primaryCommitRet int64
+	for i := range calls {
+		c := &calls[i]
+		if c.Client != rec.clientID || c.StartTS != rec.startTS {
+			continue
+		}
+		switch c.Cmd {
+		case tikvrpc.CmdCommit:
+			if r, ok := c.Req.(*kvrpcpb.CommitRequest); ok && c.Delivered && primaryCommitTS == 0 {
+				if resp, ok := c.Resp.(*kvrpcpb.CommitResponse); ok && resp != nil && resp.Error == nil {
+					primaryCommitTS, primaryCommitRet = r.CommitVersion, c.RetSeq
+				}
+			}
+		case tikvrpc.CmdResolveLock:
+			r, ok := c.Req.(*kvrpcpb.ResolveLockRequest)
+			if !ok {
+				continue
+			}
+			st.ownerResolves++
+			if r.CommitVersion == 0 {
+				st.ownerResolvesRollback++
+				continue
+			}
+			switch {
+			case primaryCommitTS == 0 || primaryCommitRet == 0 || primaryCommitRet > c.Seq:
+				add("wire:owner-resolve-commits-without-committed-primary", "the owner sent ResolveLock #%d with commit_version %d for its own transaction, but no Commit request of the primary had succeeded (Commit() returned %q)", c.Seq, r.CommitVersion, rec.endErr)
+			case r.CommitVersion != primaryCommitTS:
+				add("wire:owner-resolve-commit-ts-differs-from-primary", "the owner sent ResolveLock #%d with commit_version %d, the primary was committed at %d", c.Seq, r.CommitVersion, primaryCommitTS)
+			}
+		}
+	}
 	return
 }
 
 // truthViol evaluates the truth oracle of one case; leftover reports whether it found locks of the
 // transaction (re-checked by the caller with a larger bound before it counts).
-func checkTruth(rec *caseRec, truth *uni.Truth, locks []uni.LockRec, calls []uni.Call) (vs []viol, lockLeft bool) {
+// phase 1 = after the drain, before anybody else touched the keys: leftover locks only.  phase 2 = after the
+// clock has passed every ttl and an observer has read (and thereby resolved) every key: versions, and locks
+// that are still there.
+func checkTruth(rec *caseRec, truth *uni.Truth, locks []uni.LockRec, calls []uni.Call, phase int) (vs []viol, lockLeft bool) {
 	s := rec.s
 	add := func(sig, format string, a ...any) {
 		var lines []string
@@ -1118,6 +1275,19 @@ func checkTruth(rec *caseRec, truth *uni.Truth, locks []uni.LockRec, calls []uni
 		if !rec.committed {
 			after = "failed-commit"
 		}
+		if rec.undetermined {
+			after = "undetermined-commit"
+		}
+	}
+	// an undetermined answer allows both outcomes, but only all or nothing
+	committed := rec.committed
+	if rec.undetermined {
+		committed = primaryCommitTS != 0
+		for _, k := range s.Keys {
+			if kt := truth.Keys[k]; kt != nil && kt.WriteOf(rec.startTS) != nil {
+				committed = true
+			}
+		}
 	}
 	var left []string
 	for _, l := range locks {
@@ -1136,7 +1306,7 @@ func checkTruth(rec *caseRec, truth *uni.Truth, locks []uni.LockRec, calls []uni
 			}
 		}
 	}
-	if len(left) > 0 {
+	if len(left) > 0 && (phase == 1 || !rec.lockLeftReported) {
 		lockLeft = true
 		sort.Strings(left)
 		shape := "other"
@@ -1148,7 +1318,11 @@ func checkTruth(rec *caseRec, truth *uni.Truth, locks []uni.LockRec, calls []uni
 		}
 		add("truth:lock-left:after="+after+":"+shape, "after %s and drain the transaction (start ts %d) still holds locks on %q; flushed keys %d, largest %q", after, rec.startTS, left, len(flushed), maxF)
 	}
-	if rec.committed {
+	if phase == 1 {
+		rec.lockLeftReported = lockLeft
+		return
+	}
+	if committed {
 		if primaryCommitTS == 0 && len(rec.latest) > 0 {
 			add("truth:commit-without-primary-commit", "Commit returned nil but no successful Commit request of the primary was recorded")
 		}
@@ -1281,7 +1455,7 @@ func runUniverse(t *testing.T, r *vrep.Report, rng *rand.Rand, uniNo, nCases int
 	}
 	anyLeft := false
 	for _, rec := range recs {
-		_, left := checkTruth(rec, truths[rec], locks, nil)
+		_, left := checkTruth(rec, truths[rec], locks, nil, 1)
 		anyLeft = anyLeft || left
 	}
 	if anyLeft {
@@ -1298,6 +1472,57 @@ func runUniverse(t *testing.T, r *vrep.Report, rng *rand.Rand, uniNo, nCases int
 		calls = u.Log.Calls()
 	}
 	for _, rec := range recs {
+		lv, _ := checkTruth(rec, truths[rec], locks, calls, 1)
+		for _, v := range lv {
+			r.Violate("e2e:"+v.sig, v.msg, v.detail)
+		}
+	}
+	// Recovery: the clock passes every ttl, an observer reads every key (which resolves whatever lock is left)
+	// - a definite error of Commit must stay "nothing visible" for ever.
+	u.AdvanceClock(3 * 3600 * 1000)
+	obs, err := u.NewClient()
+	if err != nil {
+		r.Inconc("universe %d: observer: %v", uniNo, err)
+		return
+	}
+	for _, rec := range recs {
+		var ks [][]byte
+		for _, k := range rec.s.Keys {
+			ks = append(ks, []byte(k))
+		}
+		ot, err := obs.Begin()
+		if err != nil {
+			r.Inconc("universe %d: observer: %v", uniNo, err)
+			return
+		}
+		got, err := ot.BatchGet(context.Background(), ks)
+		_ = ot.Rollback()
+		if err != nil {
+			r.Inconc("case %d: observer read: %T: %v", rec.s.ID, err, err)
+			continue
+		}
+		r.Count("observer_reads_after_ttl", len(ks))
+		if !rec.committed && !rec.undetermined {
+			mine := fmt.Sprintf("v%d.", rec.s.ID)
+			for k, e := range got {
+				if strings.HasPrefix(string(e.Value), mine) {
+					r.Violate("e2e:observer:value-of-uncommitted-txn-visible:after="+rec.ended, fmt.Sprintf("case %d (%s): %s of the transaction ended with %q, but an observer reading after every ttl sees its value %q under %q", rec.s.ID, rec.s.Shape, rec.ended, rec.endErr, short(string(e.Value)), k),
+						map[string]any{"spec": rec.s, "steps": rec.s.stepStrings(), "start_ts": rec.startTS, "end_error": rec.endErr, "observed": rec.shape})
+				}
+			}
+		}
+	}
+	if !u.Drain() {
+		r.Inconc("universe %d: recovery did not drain", uniNo)
+		return
+	}
+	truths, locks, err = readAll()
+	if err != nil {
+		r.Inconc("universe %d: truth: %v", uniNo, err)
+		return
+	}
+	calls = u.Log.Calls()
+	for _, rec := range recs {
 		s := rec.s
 		rec.plan.mu.Lock()
 		rec.faults = map[string]int{}
@@ -1306,7 +1531,7 @@ func runUniverse(t *testing.T, r *vrep.Report, rng *rand.Rand, uniNo, nCases int
 		}
 		rec.plan.mu.Unlock()
 		wv, ws := checkWire(rec, calls)
-		tv, _ := checkTruth(rec, truths[rec], locks, calls)
+		tv, _ := checkTruth(rec, truths[rec], locks, calls, 2)
 		for _, v := range append(wv, tv...) {
 			r.Violate("e2e:"+v.sig, v.msg, v.detail)
 		}
@@ -1344,6 +1569,14 @@ func runUniverse(t *testing.T, r *vrep.Report, rng *rand.Rand, uniNo, nCases int
 			t.Logf("case %d %s end=%s committed=%v endErr=%q flushErr=%q loseFrom=%d conflict=%q(%v) faults=%v trace=%v", s.ID, s.Shape, rec.ended, rec.committed, rec.endErr, rec.flushErr, s.LoseFrom, s.ConflictKey, rec.conflictCommitted, rec.faults, rec.shape)
 		}
 		r.Count("region_splits_by_driver_after_flush", rec.splitsByDriver)
+		r.Count("owner_resolve_lock_rpcs", ws.ownerResolves)
+		r.Count("owner_resolve_lock_rpcs_rollback", ws.ownerResolvesRollback)
+		if s.CommitFault != "" {
+			r.Count("programs_with_commit_fault:"+s.CommitFault, 1)
+		}
+		if rec.undetermined {
+			r.Count("commit_undetermined", 1)
+		}
 		r.Count("flushes_triggered_by_driver", len(rec.gens))
 		r.Count("flush_rpcs", ws.flushRPCs)
 		r.Count("flush_rpcs_applied", ws.applied)
@@ -1381,7 +1614,7 @@ func countCmd(calls []uni.Call, cmd tikvrpc.CmdType) int {
 }
 
 func TestVerifC16(t *testing.T) {
-	r := vrep.New("C16", "c16-e2e", "generated pipelined transactions (set/delete/get/batch-get/flush force|threshold/flush-wait, then Commit or Rollback; flush thresholds lowered through the pipelinedMemDB* failpoints; flush and resolve concurrency 1|2|8) on unistore, each on its own key prefix with its own region layout (random borders, largest written key first in its region, a single flushed key, committed old values under keys that are overwritten/deleted, flushed and waited for and then read by one BatchGet and by Get while the region is split between them - by the driver behind the client's region cache or exactly at the BufferBatchGet RPC) and a fault plan on its BufferBatchGet RPCs (split between two requested keys, NotLeader, ServerIsBusy, EpochNotMatch) and on its Flush RPCs (held in flight while the program goes on, NotLeader, ServerIsBusy, region split at the RPC, lost request, lost response, every request lost from some point on, conflicting committed write; NotLeader/split on a ResolveLock RPC); monitors: reads vs the driver's model by tier, wire (mutations per generation, completeness of successful flushes, increasing generations, one generation in flight), Commit fails after a reported flush error, MVCC truth after drain (latest writes at the primary's commit ts and no lock / nothing and no lock); distinct = distinct (shape, end, outcome, operation/tier trace) of transactions that flushed at least once")
+	r := vrep.New("C16", "c16-e2e", "generated pipelined transactions (set/delete/get/batch-get/flush force|threshold/flush-wait, then Commit or Rollback; flush thresholds lowered through the pipelinedMemDB* failpoints; flush and resolve concurrency 1|2|8) on unistore, each on its own key prefix with its own region layout (random borders, largest written key first in its region, a single flushed key, committed old values under keys that are overwritten/deleted, flushed and waited for and then read by one BatchGet and by Get while the region is split between them - by the driver behind the client's region cache or exactly at the BufferBatchGet RPC) and a fault plan on its BufferBatchGet RPCs (split between two requested keys, NotLeader, ServerIsBusy, EpochNotMatch) and on its Flush RPCs (held in flight while the program goes on, NotLeader, ServerIsBusy, region split at the RPC, lost request, lost response, every request lost from some point on, conflicting committed write; NotLeader/split on a ResolveLock RPC; commit-phase failures: primary lock rolled back by another client's resolver right before the Commit RPC, failpoint pipelinedCommitFail, NotLeader/ServerIsBusy/lost request on the Commit RPC); monitors: reads vs the driver's model by tier, wire (mutations per generation, completeness of successful flushes, increasing generations, one generation in flight), Commit fails after a reported flush error, MVCC truth after drain (no lock) and again after ttl expiry + observer reads (latest writes at the primary's commit ts / nothing; undetermined = all or nothing), owner's ResolveLock requests carry commit_version 0 unless its primary Commit succeeded; distinct = distinct (shape, end, outcome, operation/tier trace) of transactions that flushed at least once")
 	defer r.Finish(t)
 	_ = failpoint.Enable("tikvclient/fastBackoffBySkipSleep", "return")
 	defer failpoint.Disable("tikvclient/fastBackoffBySkipSleep")
@@ -1398,6 +1631,9 @@ func TestVerifC16(t *testing.T) {
 	r.Floor("programs:single-key", 40)
 	r.Floor("programs:max-on-border", 60)
 	r.Floor("programs:read-flushed", 60)
+	r.Floor("fault:commit:primary-rolled-back-by-resolver", 10)
+	r.Floor("fault:commit:failpoint-after-commit-ts", 5)
+	r.Floor("owner_resolve_lock_rpcs_rollback", 100)
 	r.Floor("fault:bufget:split-between-requested-keys", 15)
 	r.Floor("region_splits_by_driver_after_flush", 15)
 	r.Floor("fault:bufget:epoch-not-match", 10)
